@@ -157,6 +157,42 @@ def binary_stratum(ctx, ws, n):
         ctx.case(("c12-bin", text, __import__("hashlib").sha256(blob).hexdigest()), found, stratum="binary/" + ("found" if found else "not found"))
 
 
+def range_stratum(ctx, ws, n):
+    """Rules whose verdict depends on `config.valid_addr_range` (an item naming `valid_addr`, or the literal target of a branch the
+    range covers / does not cover), on listings with many direct branches inside the range BEFORE the place the rule matches: the
+    eight ways of asking still agree (the text the matcher sees is the same in every mode, and so is where a hit starts)."""
+    from jv import listing as L
+    rng = ctx.rng
+    for k in range(n):
+        base = rng.choice([0x401000, 0x1000, 0x7f0000001000])
+        insts, addr = [], base
+        nlead = rng.choice([0, 3, 8, 20])
+        lo, hi = base + 0x100, base + 0x1ff
+        for j in range(nlead):
+            insts.append(L.SInst(addr, rng.choice(["call", "jmp", "callq", "je"]), [format(rng.randint(lo, hi), "x")], "<f+0x%x>" % j, None, 5))
+            addr += 5
+        body = [("mov", ["%rax", "%rbx"]), ("call", [format(rng.randint(lo, hi), "x")]), ("mov", ["%rax", "%rbx"]), ("call", [format(hi + 0x40, "x")]),
+                ("jmp", [format(lo, "x")]), ("ret", []), ("mov", ["%rax", "%rbx"]), ("jmp", [format(hi, "x")]), ("nop", [])]
+        for m, ops in body:
+            insts.append(L.SInst(addr, m, list(ops), None, None, 3))
+            addr += 3
+        text = L.render(insts, rng)
+        lp = ws.write("range.s", text)
+        pats = [["mov", {"call": ["valid_addr"]}], ["mov", {"jmp": ["valid_addr"]}], [{"jmp": ["valid_addr"]}, "ret"], ["mov", {"call": [format(hi + 0x40, "x")]}],
+                ["mov", {"call": ["valid_addr"]}, "mov", {"call": [{"$not": ["valid_addr"]}]}], [{"$or": ["call", "jmp"], "times": {"min": 1, "max": 3}}, "ret"]]
+        pat = pats[(ctx.shard + k) % len(pats)]
+        spell = rng.choice([("0x%x", "0x%x"), ("%x", "%x"), ("0x%x", "%x")])
+        rule = real.dump_rule({"config": {"valid_addr_range": {"min": spell[0] % lo, "max": spell[1] % hi}}, "pattern": pat})
+        rp = ws.write("range_rule.yaml", rule)
+        pf = [False, True, "flip"][(ctx.shard + k) % 3]
+        res, ev = eight_modes(ctx, ws, rp, lp, prepare_first=pf)
+        case = {"rule": rule, "listing": text, "desc": "range", "range_case": True, "prepare_first": pf}
+        check_relations(ctx, case, res, ev)
+        found = any(r[0] == "ok" and bool(r[1]) for r in res.values())
+        ctx.event("range_dependent_mode_sets")
+        ctx.case(("c12-range", rule, text), found, stratum="range-dependent/" + ("found" if found else "not found"))
+
+
 def run_shard(ctx):
     install()
     for m in REC.missing:
@@ -165,6 +201,7 @@ def run_shard(ctx):
                      allow_empty=True)
     d.loop(800, 80000)
     binary_stratum(ctx, d.ws, ctx.share(64, 6000))
+    range_stratum(ctx, d.ws, ctx.share(48, 3000))
     # long listings: first-match must be the head of all-matches also when the first occurrence lies deep in the listing
     from jv.props import c11
     c11.long_listing_stratum(ctx, d.ws, ctx.share(16, 300))
@@ -181,6 +218,10 @@ def replay(ctx, case):
     if case.get("long_variable"):
         from jv.props import c11
         return c11.replay_long_variable(ctx, case)
+    if case.get("range_case"):
+        res, ev = eight_modes(ctx, ws, ws.write("range_rule.yaml", case["rule"]), ws.write("range.s", case["listing"]), prepare_first=case.get("prepare_first") or False)
+        check_relations(ctx, case, res, ev)
+        return
     if case.get("object_b64"):
         op = ws.write("o.bin", __import__("base64").b64decode(case["object_b64"]))
         res, ev = eight_modes(ctx, ws, ws.write("rule.yaml", case["rule"]), op, binary=True)
